@@ -4,7 +4,7 @@ import SageModel.Model.C20
 /-! Driver ops for C20.
 
 ```
-align n_files [n (file pep label q:f32 rt:f32)…]
+align n_files [n (file pep label q:f32 rt:f32 charge rank)…]
     | [n_files (max_rt:f32 slope:f32 intercept:f32)…] [n aligned_rt:f32…]          (or `panic`)
 rtpredict  [np seq…] [n (pep label q:f32 aligned_rt:f32)…]
     | 1 [n (r:f64 predicted:f32 delta:f32)…]   or   0 [n (predicted:f32 delta:f32)…]
@@ -98,6 +98,9 @@ def parseAlign : P (Nat × List RawFeat) := do
   let nf ← nat
   let fs ← list (do
     let f ← nat; let p ← nat; let l ← int; let q ← f32; let rt ← f32
+    -- precursor charge and rank: present in the request, deliberately NOT part of the model's input
+    -- (the anchor table is keyed by the peptide; charge, rank, psm_id, masses, scores must not matter)
+    let _charge ← nat; let _rank ← nat
     pure (f, p, l, q, rt))
   pure (nf, fs)
 
@@ -211,12 +214,13 @@ def handleAlign (args impl : List String) : Option Reply := do
 
 /-! ### `rtpredict` / `imspredict` -/
 
-def handlePredict (ims : Bool) (args impl : List String) : Option Reply := do
+def handlePredict (ims : Bool) (args impl : List String) (naturalQ : Bool := false) : Option Reply := do
   let parseReq : P (List (Float32)) := do
     let _ ← list bytes
     list (do
-      let _ ← nat; let _ ← int; let _ ← f32
-      if ims then let _ ← nat
+      let _ ← nat; let _ ← int
+      if !naturalQ then let _ ← f32
+      if ims || naturalQ then let _ ← nat
       let obs ← f32
       pure obs)
   let obs ← run parseReq args
@@ -292,8 +296,55 @@ def handlePools (chain : Bool) (impl : List String) : Option Reply :=
     | _, _ => some { model := "pool-independent", agree := false, spec := "bad:shape" }
   | [] => some { model := "pool-independent", agree := false, spec := "bad:shape" }
 
+/-! ### `trainset`: which PSMs the regression is trained on
+
+The training set of `RetentionModel::fit` / `MobilityModel::fit` is, by definition, the PSMs with
+`label == 1 && spectrum_q <= 0.01` (`confident`, the same predicate as the alignment's). The harness
+fits twice, the second time with the observed value of the masked PSMs shifted by `delta`:
+* if no masked PSM is in the training set, the two fits get identical inputs: every raw prediction
+  must be bit-identical (and the fit flags equal);
+* if a masked PSM is in the training set, `β` changes by `(XᵀX+εI)⁻¹·xᵢ·δ ≠ 0` and that PSM's own
+  prediction moves by `xᵢᵀ(XᵀX+εI)⁻¹xᵢ·δ > 0`: some raw prediction must differ.
+Either failure is `bad:training_set_ne_definition`. Whether a model can be fitted at all is decided by
+`Gauss::solve` on the design matrix only (`left_solved` reads `left`; the elimination never branches on
+the right-hand side), so the two fit flags must be equal however the observed values were perturbed:
+`bad:fit_outcome_depends_on_observed_values` otherwise. -/
+
+def handleTrainset (args impl : List String) : Option Reply := do
+  let parseReq : P (List (Int × Float32 × Bool)) := do
+    let _ ← nat; let _ ← f32
+    let _ ← list bytes
+    list (do
+      let _ ← nat; let l ← int; let q ← f32; let _ ← nat; let _ ← f32; let m ← bool
+      pure (l, q, m))
+  let fs ← run parseReq args
+  let inTraining (t : Int × Float32 × Bool) : Bool :=
+    confident thr32 (⟨0, 0, t.1, t.2.1, t.2.1⟩ : Feat Float32)
+  let maskedTraining := fs.any fun t => t.2.2 && inTraining t
+  match impl with
+  | ["panic"] => pure { model := "relational", agree := false, spec := "bad:panic" }
+  | _ =>
+    match run (do let a ← bool; let b ← bool; let rs ← list (do let x ← nat; let y ← nat; pure (x, y)); pure (a, b, rs)) impl with
+    | none => pure { model := "relational", agree := false, spec := "bad:shape" }
+    | some (fa, fb, rs) =>
+      if rs.length != fs.length then pure { model := "relational", agree := false, spec := "bad:shape" } else
+      let same := rs.all fun (x, y) => x == y
+      let spec :=
+        if !maskedTraining then
+          if fa == fb && same then "ok" else "bad:training_set_ne_definition"
+        else if fa != fb then
+          -- `Gauss::solve` succeeds or fails on the design matrix alone (`left_solved` reads `left` only)
+          "bad:fit_outcome_depends_on_observed_values"
+        else if fa && fb then
+          if same then "bad:training_set_ne_definition" else "ok"
+        else "na"
+      pure { model := s!"relational masked_training={outBool maskedTraining}", agree := true, spec := spec }
+
 def handle (op : String) (args impl : List String) : Option Reply :=
   match op with
+  | "trainset" => handleTrainset args impl
+  | "rtpredictq" => handlePredict false args impl true
+  | "imspredictq" => handlePredict true args impl true
   | "predpools" => handlePools false impl
   | "chainpools" => handlePools true impl
   | "align" => handleAlign args impl
